@@ -207,10 +207,10 @@ def cases(tier, seed):
     for u, v in itertools.product(temp, temp):
         if u != v:
             out.append(Case("H05.a", f"{u}~{v}", M, "h_eq_def", {"u": u, "v": v}))
-    pairs = covers.same_dim_pairs(seed, 400 if big else 60)
+    pairs = covers.all_same_dim_pairs() if big else covers.same_dim_pairs(seed, 60)
     for u, v in pairs:
         out.append(Case("H05.a", f"{u}~{v}", M, "h_eq_def", {"u": u, "v": v}))
-    for u, v in covers.cross_dim_pairs(seed, 60 if big else 12):
+    for u, v in covers.cross_dim_pairs(seed, 600 if big else 12):
         out.append(Case("H05.a", f"{u}~{v}", M, "h_eq_def", {"u": u, "v": v}))
     # dimensionless units with distinct roots
     dl = ["radian", "count", "bit", "percent", "degree", "ppm"]
@@ -234,22 +234,22 @@ def cases(tier, seed):
                 t = (off, ab, de)
                 out.append(Case("H05.b-offset-abs-delta", "~".join(t), M, "h_eq_trans", {"u": t[0], "v": t[1], "w": t[2]}))
     cl = [v for v in covers.classes(kinds=("base", "mult", "dimensionless")).values() if len(v) >= 3]
-    for _ in range(300 if big else 30):
+    for _ in range(4000 if big else 30):
         triples.append(tuple(rnd.sample(rnd.choice(cl), 3)))
     for t in triples:
         out.append(Case("H05.b", "~".join(t), M, "h_eq_trans", {"u": t[0], "v": t[1], "w": t[2]}, weight=2.0))
     # H05.c hash inputs
     hp = [("hertz", "becquerel"), ("radian", "count"), ("inch", "centimeter"), ("degree_Celsius", "kelvin"), ("percent", "ppm"), ("degree", "radian")]
-    hp += pairs[: (200 if big else 30)]
+    hp += pairs[: (2000 if big else 30)]
     for u, v in hp:
         out.append(Case("H05.c", f"{u}~{v}", M, "h_hash", {"u": u, "v": v}, opts={"hash_mode": "const"}))
     # H05.d ordering
     pos_pairs = [(u, v) for u, v in pairs if covers.info(u).num > 0 and covers.info(v).num > 0]
-    op_pairs = pos_pairs[: (300 if big else 40)] + covers.cross_dim_pairs(seed + 1, 40 if big else 8)
+    op_pairs = pos_pairs[: (4000 if big else 40)] + covers.cross_dim_pairs(seed + 1, 400 if big else 8)
     op_pairs += [(u, v) for u, v in itertools.permutations(temp, 2)]
     for u, v in op_pairs:
         out.append(Case("H05.d", f"{u}~{v}", M, "h_order", {"u": u, "v": v}))
-    unit_pairs = pos_pairs[: (100 if big else 15)] + list(itertools.permutations(temp, 2)) + covers.cross_dim_pairs(seed + 2, 20 if big else 4)
+    unit_pairs = pos_pairs[: (1500 if big else 15)] + list(itertools.permutations(temp, 2)) + covers.cross_dim_pairs(seed + 2, 20 if big else 4)
     unit_pairs += [("percent", "ppm"), ("radian", "degree"), ("count", "percent")]
     for u, v in unit_pairs:
         out.append(Case("H05.d-unit", f"{u}~{v}", M, "h_unit_order", {"u": u, "v": v}))
